@@ -64,6 +64,15 @@ def generate(seed, tier):
     sample(c09, 'c09')
     sample(c19, 'c19')
     sample(c07, 'c07', keys=('casync', 'dasync'))
+    # every misuse of the call notations (positional AND named arguments): both halves must refuse it the same way
+    seen7 = {json.dumps(x['c'], sort_keys=True, default=repr) for x in cases if x['src'] == 'c07'}
+    for c in c07.generate(seed, 'quick'):
+        if c['t'] == 'single' and c['pos'] and c['kw']:
+            cc = strip(c, ('casync', 'dasync'))
+            k = json.dumps(cc, sort_keys=True, default=repr)
+            if k not in seen7:
+                seen7.add(k)
+                cases.append({'src': 'c07', 'c': cc})
     return cases
 
 
